@@ -247,11 +247,15 @@ struct CaseSpec {
     bool specgrid = false, hasMapaxes = false, gridunitKw = false;
     double mapaxes[6] = {0, 0, 0, 0, 0, 0};
     int mapunits = -1;               // -1: no MAPUNITS keyword
+    int gridunit = -1;               // index into UNITS of the GRIDUNIT keyword (may differ from the deck's unit system)
     std::vector<std::array<int, 6>> nncRec;   // one based i1 j1 k1 i2 j2 k2
     std::vector<double> nncTrans;
     bool degeneratePillars = false;
     bool twisted = false;
 };
+
+// SI length of one unit of the grid keywords: GRIDUNIT's unit when the keyword is there, the deck's otherwise
+double lengthUnit(const CaseSpec& cs) { return UNITS[cs.gridunitKw ? cs.gridunit : cs.unit].L; }
 
 std::string num(double v) { char b[40]; snprintf(b, sizeof b, "%.17g", v); return b; }
 
@@ -326,6 +330,8 @@ void genExtras(Rng& rng, CaseSpec& cs) {
     const Base& b = cs.base;
     cs.specgrid = rng.chance(0.3);
     cs.gridunitKw = rng.chance(0.3);
+    // GRIDUNIT naming another length unit than the deck's: the grid keywords are then read in that unit
+    cs.gridunit = cs.gridunitKw ? (rng.chance(0.5) ? cs.unit : (int)rng.below(4)) : -1;
     if (rng.chance(0.5)) {
         cs.hasMapaxes = true;
         // origin, a point on the map y axis, a point on the map x axis (not necessarily orthogonal, possibly left handed)
@@ -591,7 +597,7 @@ std::string extrasText(const CaseSpec& cs, bool actnum = true) {
         for (double v : cs.mapaxes) o << " " << num(v);
         o << " /\n";
     }
-    if (cs.gridunitKw) o << "GRIDUNIT\n " << UNITS[cs.unit].gridunit << " /\n";
+    if (cs.gridunitKw) o << "GRIDUNIT\n " << UNITS[cs.gridunit].gridunit << " /\n";
     if (!cs.nncRec.empty()) {
         o << "NNC\n";
         for (size_t r = 0; r < cs.nncRec.size(); ++r) {
@@ -785,7 +791,7 @@ void checkGeometry(Monitor& m, const Opm::EclipseGrid& g, const Geo& ref, const 
 // returns false when the defect "TOPS below the top layer ignored" was met (so that the caller skips the
 // comparisons which only repeat it)
 bool checkBlockClosedForms(Monitor& m, const Opm::EclipseGrid& g, const CaseSpec& cs, const Geo& ref) {
-    const double L = UNITS[cs.unit].L;
+    const double L = lengthUnit(cs);
     const size_t n = cs.base.ncell();
     const double tx = m.TOL * ref.scale[0], ty = m.TOL * ref.scale[1], tz = m.TOL * ref.scale[2], txy = m.TOL * std::max(ref.scale[0], ref.scale[1]);
     bool gapDefect = false;
@@ -906,14 +912,14 @@ void checkSubdivision(Monitor& m, Rng& rng, const CaseSpec& cs, const Opm::Eclip
         --*big;
         if (r[0] * r[1] * r[2] == 1) return;
     }
-    const double L = UNITS[cs.unit].L;
+    const double L = lengthUnit(cs);
     const Base fb = refine(b, r[0], r[1], r[2]);
     const Geo fine = render(fb, L);
     std::unique_ptr<Opm::EclipseGrid> fg;
     std::string form = "VEC";
     try {
         if (fb.ncell() <= 600 && rng.chance(0.3)) {
-            CaseSpec fs; fs.unit = cs.unit; fs.base = fb; fs.actnum.assign(fb.ncell(), 1);
+            CaseSpec fs; fs.unit = cs.unit; fs.gridunitKw = cs.gridunitKw; fs.gridunit = cs.gridunit; fs.base = fb; fs.actnum.assign(fb.ncell(), 1);
             const Geo fdeck = render(fb, 1.0);
             fg = std::make_unique<Opm::EclipseGrid>(parser.parseString(cpDeck(fs, fdeck)));
             form = "COORD";
@@ -1185,7 +1191,7 @@ int main(int argc, char** argv) {
         genExtras(rng, cs);
         const Base& b = cs.base;
         const bool block = cs.family != "cp";
-        const double L = UNITS[cs.unit].L;
+        const double L = lengthUnit(cs);
         const Geo deckGeo = render(b, 1.0);      // deck units: what goes into COORD / ZCORN
         const Geo si = render(b, L);             // SI: the reference
         const std::string cpText = cpDeck(cs, deckGeo);
@@ -1300,6 +1306,7 @@ int main(int argc, char** argv) {
         // ---- evidence
         rep.cover("family", cs.family);
         rep.cover("units", UNITS[cs.unit].kw);
+        if (cs.gridunitKw) rep.cover("gridunit_vs_deck_units", std::string(UNITS[cs.unit].kw) + "+GRIDUNIT " + UNITS[cs.gridunit].gridunit);
         rep.cover("actnum_pattern", cs.actPattern);
         if (block) rep.cover("block_form", cs.blockForm);
         {
